@@ -241,6 +241,11 @@ class Run:
             os.chdir(self.cwd)          # for the whole case (observations between the steps included); restored by ctx.end_case()
             if hasattr(ctx, "cleanups"):
                 ctx.cleanups.append(lambda: os.chdir(old_cwd))
+        if case.get("root_via") == "relative" and root is None and case.get("decoys", True):
+            # the store is opened through a path RELATIVE to the process's current directory ("var/metacat", as in the factory's
+            # docstring); the current directory stays what it is for the whole case
+            os.makedirs(self.root, exist_ok=True)
+            self.open_path = os.path.relpath(self.root, self.cwd)
         self.store = self.factory()
         self.stores = {0: self.store}  # op["inst"] selects another instance on the same directory
         self.model = Model(self.cfg)
